@@ -191,6 +191,29 @@ for nlen in (1, 1, 3, 4):
                                              for j in range(7) for x, y in zip(fa_[j], fb_[j])):
             fail("C04:energy-vs-wavelength", "%s = %r; with the equivalent wavelength vector %r" % (t_, a_, b_), call=t_)
 
+# ---------------------------------------------------------------- whole-number wavelengths in every container and dtype
+stats["integer_vectors"] = 0
+for k_ in range(4):
+    seq_ = pool.nested(rng.randint(0, 2)) if k_ else "H2O"
+    ints_ = sorted(rng.sample(range(1, 9), rng.randint(1, 4)))
+    ref_ = attempt(nsf.neutron_scattering, seq_, density=1.5, wavelength=[float(w) for w in ints_])
+    fr_ = flatten_result(ref_, True, len(ints_)) if isinstance(ref_, tuple) else None
+    for arg in (list(ints_), tuple(ints_), np.array(ints_), np.array(ints_, dtype=np.int32)):
+        stats["integer_vectors"] += 1
+        got_ = attempt(nsf.neutron_scattering, seq_, density=1.5, wavelength=arg)
+        fg_ = flatten_result(got_, True, len(ints_)) if isinstance(got_, tuple) else None
+        t_ = "neutron_scattering(%r, density=1.5, wavelength=%r)" % (seq_, arg)
+        if fr_ is None or fg_ is None or any(abs(x - y) > 1e-9 * max(abs(x), abs(y), 1e-300) + (1e-7 if j == 2 else 0)
+                                             for j in range(7) for x, y in zip(fg_[j], fr_[j])):
+            fail("C04:vector-vs-scalar", "%s = %r; with the same wavelengths written as floats %r" % (t_, got_, ref_), call=t_)
+    for w_ in ints_[:2]:
+        got_ = attempt(nsf.neutron_scattering, seq_, density=1.5, wavelength=int(w_))
+        one_ = attempt(nsf.neutron_scattering, seq_, density=1.5, wavelength=float(w_))
+        fg_, fo_ = (flatten_result(r, False, 1) if isinstance(r, tuple) else None for r in (got_, one_))
+        t_ = "neutron_scattering(%r, density=1.5, wavelength=%d)" % (seq_, w_)
+        if fg_ is None or fo_ is None or any(abs(x - y) > 1e-9 * max(abs(x), abs(y), 1e-300) for j in range(7) for x, y in zip(fg_[j], fo_[j])):
+            fail("C04:vector-vs-scalar", "%s = %r; with the wavelength written %r it is %r" % (t_, got_, float(w_), one_), call=t_)
+
 # ---------------------------------------------------------------- energy= through the package-level functions
 import periodictable as _ptpkg
 stats["package_level_energy"] = 0
